@@ -50,7 +50,7 @@ def norm_each(e, f_adts):
 
 def natom(e, v):
     """normalised (atom, polarity) of a branch decision"""
-    if e[0] == "discr" and e[1][0] != "next":
+    if e[0] == "discr" and (e[1][0] != "next" or len(e[1]) == 3):      # (a numbered next() is an Option value, not a loop test)
         if v == 1:
             return ("issome", e[1]), True
         if v == 0 or (isinstance(v, tuple) and set(v[1]) == {1}):
